@@ -30,6 +30,9 @@ TRIGGERS = {
     "async_fn": ("async def work() -> int:\n    return 1\n", ""),
     "plain_model": ("model TPlain:\n    x: int\n", "    println(TPlain(x=1).x)\n"),
     "collections": ("", "    d = {\"a\": 1}\n    s = {1, 2}\n    println(len(d) + len(s))\n"),
+    # web feature (axum + tokio; the emitter also writes serde imports for web programs): third element = import header
+    "web_route": ('@route("/")\nasync def index() -> Response:\n    return Response.html("<h1>hello</h1>")\n', "    app = App()\n    app.run(port=8080)\n", "from web import App, route, Response"),
+    "web_import_only": ("", "    app = App()\n    println(1)\n", "from web import App"),
 }
 KNOWN = ["serde_json", "regex", "rand", "chrono", "uuid", "anyhow", "itertools", "log"]
 FORMS = {
@@ -63,6 +66,11 @@ def cases(tier):
     for f in FORMS:
         out.append({"triggers": (), "imports": (("foo_unknown_crate", f),), "name": "prog", "expect_refused": True})
         out.append({"triggers": ("derive_serialize",), "imports": (("regex", "import_crate"), ("foo_unknown_crate", f)), "name": "prog", "expect_refused": True})
+    # the same feature triggers / imports living in a dependency module instead of the entry file
+    for t in ("derive_serialize", "json_stringify_call", "async_fn", "web_route", "collections"):
+        out.append({"triggers": (t,), "imports": (), "name": "prog", "where": "dep"})
+    for c in ("regex", "serde_json", "rand"):
+        out.append({"triggers": (), "imports": ((c, "from_import"),), "name": "prog", "where": "dep"})
     # project names
     for n in NAMES:
         out.append({"triggers": ("derive_serialize",), "imports": (("regex", "import_crate"),), "name": n})
@@ -74,9 +82,20 @@ def source(case):
     imps = []
     for c, f in case["imports"]:
         imps.append(FORMS[f].replace("{C}", c).replace("{I}", ITEM.get(c, "Item")))
+    for t in case["triggers"]:
+        if len(TRIGGERS[t]) > 2 and TRIGGERS[t][2] not in imps:
+            imps.append(TRIGGERS[t][2])
     decls = [TRIGGERS[t][0] for t in case["triggers"] if TRIGGERS[t][0]]
     body = "".join(TRIGGERS[t][1] for t in case["triggers"]) or "    pass\n"
+    if case.get("where") == "dep":
+        return "from featlib import lib_entry\n\n\ndef main() -> None:\n    lib_entry()\n"
     return ("\n".join(imps) + "\n\n\n" if imps else "") + "\n\n".join(decls) + ("\n\n" if decls else "") + "def main() -> None:\n" + body
+
+
+def dep_source(case):
+    """For where == "dep": the module featlib.incn that holds the triggers / rust imports; main only calls into it."""
+    main_like = source({**case, "where": "main"})
+    return main_like.replace("def main() -> None:", "pub def lib_entry() -> None:")
 
 
 def strip_strings_comments(rs):
@@ -116,6 +135,8 @@ def referenced_crates(files):
     mods = set()
     for path, rs in files.items():
         code = strip_strings_comments(rs)
+        # inside a `use a::{b::c, d::e};` group the inner path heads are relative to `a`, not crates
+        code = re.sub(r"\buse\s+([^;{]*)\{[^;]*;", lambda m: "use " + m.group(1) + "x;", code)
         mods |= set(re.findall(r"\bmod\s+([a-z_][a-z0-9_]*)\s*[;{]", code))
         stem = os.path.splitext(os.path.basename(path))[0]
         mods.add(stem)
@@ -139,6 +160,9 @@ def generate(args):
     src = source(case)
     path = os.path.join(d, name + ".incn")
     open(path, "w", encoding="utf-8").write(src)
+    if case.get("where") == "dep":
+        open(os.path.join(d, "featlib.incn"), "w", encoding="utf-8").write(dep_source(case))
+        src = src + "\n# --- featlib.incn\n" + dep_source(case)
     env = {"PATH": FAKE + ":" + os.environ.get("PATH", ""), "HOME": os.environ.get("HOME", "/root"), "RUST_LOG": "off"}
     p = subprocess.run([common.INCAN, "--no-banner", "--color", "never", "build", name + ".incn", "out"], cwd=d, env=env, capture_output=True, text=True, timeout=120)
     files = {}
@@ -215,18 +239,18 @@ def run(tier):
     for k, src, rc, text, files in res:
         case = cs[k]
         probs = judge(case, src, rc, text, files)
-        sig = (case["triggers"], case["imports"], case["name"])
+        sig = (case["triggers"], case["imports"], case["name"], case.get("where", "main"))
         if probs and probs[0][0] == "NOT-IN-DOMAIN":
             continue
         n_domain += 1
         if not probs:
             sig_ok.add(sig)
         for kind, detail in probs:
-            key = f"{kind}|trig:{'+'.join(case['triggers']) or '-'}|imp:{'+'.join(c + '/' + f for c, f in case['imports']) or '-'}|name:{case['name'][:12]}"
-            out.fail(key, {"case": {"triggers": list(case["triggers"]), "imports": [list(i) for i in case["imports"]], "name": case["name"]}, "source": src, "detail": detail, "cargo_toml": files.get("Cargo.toml")})
+            key = f"{kind}|trig:{'+'.join(case['triggers']) or '-'}|imp:{'+'.join(c + '/' + f for c, f in case['imports']) or '-'}|name:{case['name'][:12]}" + ("|in-dependency-module" if case.get("where") == "dep" else "")
+            out.fail(key, {"case": {"triggers": list(case["triggers"]), "imports": [list(i) for i in case["imports"]], "name": case["name"], "where": case.get("where", "main")}, "source": src, "detail": detail, "cargo_toml": files.get("Cargo.toml")})
     # sufficiency: really build the subsets whose crates are available offline
     pipe.warm()
-    real = [c for c in cs if not c["imports"] and c["name"] == "prog" and len(c["triggers"]) <= (3 if tier == "thorough" else 1)]
+    real = [c for c in cs if not c["imports"] and c["name"] == "prog" and c.get("where") != "dep" and len(c["triggers"]) <= (3 if tier == "thorough" else 1)]
     real += [c for c in cs if c["imports"] == (("serde_json", "import_crate"),)]
     rr = pipe.run_many([(i, {"prog.incn": source(c)}, {"run": False}) for i, c in enumerate(real)])
     n_real_ok = 0
@@ -243,7 +267,7 @@ def run(tier):
     cov = {
         "evaluations": len(cs) + len(real),
         "distinct_nontrivial": len(sig_ok),
-        "rule": "project generations: every subset of <= 2 (thorough <= 3) of 9 feature triggers (derive Serialize / Deserialize merged, stacked, on class; json_stringify; async; plain), "
+        "rule": "project generations: every subset of <= 2 (thorough <= 3) of 11 feature triggers (derive Serialize / Deserialize merged, stacked, on class; json_stringify; async; plain; web route; web import only), 8 cases with the trigger or rust:: import in a dependency module instead of the entry file, "
         "every known-good crate in 4 import forms, crate pairs, std, crates also implied by a feature, an unknown crate in every form (must be refused), 11 project names; oracle on "
         "the files written by the real `incan build` (no-op cargo): TOML parses, package/bin name = file stem, every dependency pinned, declared crates = crates referenced by the "
         "generated Rust (token scan ignoring strings/comments) + {incan_stdlib, incan_derive}; plus real cargo builds of the registry-available subsets",
@@ -269,7 +293,7 @@ def replay(path):
     common.build(need_cli=True)
     rec = json.load(open(path, encoding="utf-8"))
     c = rec["case"]
-    case = {"triggers": tuple(c["case"]["triggers"]), "imports": tuple(tuple(i) for i in c["case"]["imports"]), "name": c["case"]["name"]}
+    case = {"triggers": tuple(c["case"]["triggers"]), "imports": tuple(tuple(i) for i in c["case"]["imports"]), "name": c["case"]["name"], "where": c["case"].get("where", "main")}
     if "unknown" in rec["key"] or "wildcard" in rec["key"]:
         case["expect_refused"] = True
     root = os.path.join(common.BUILD, "c15_replay")
